@@ -1,5 +1,6 @@
 """C15 - printer dispatch follows the class hierarchy for every registration history."""
 import itertools
+import re
 import json
 import sys
 import warnings
@@ -67,10 +68,26 @@ def gen_history(r, ncls, n):
         elif x < 0.42:
             h.append(('rp', r.randrange(2), r.randrange(5, 8)))
         elif x < 0.72:
-            h.append(('pr', c))
+            # how the instance reaches the printer: bare, or (first!) through a comment wrapper, top level or nested
+            h.append(('pr', c, r.randrange(1, 6)) if r.random() < 0.35 else ('pr', c))
         else:
             h.append(('ir', c) + r.choice(FLAGS))
     return h
+
+
+def _shown(obj, how):
+    from prettyprinter import comment, trailing_comment
+    if how == 1:
+        return comment(obj, 'c')
+    if how == 2:
+        return trailing_comment(obj, 't')
+    if how == 3:
+        return [comment(obj, 'c')]
+    if how == 4:
+        return {1: trailing_comment(obj, 't')}
+    if how == 5:
+        return (comment(trailing_comment(obj, 't'), 'c'), 0)
+    return obj
 
 
 def run_impl(lat, acc, h):
@@ -102,7 +119,9 @@ def run_impl(lat, acc, h):
                     obs.append('-')
                 elif op[0] == 'pr':
                     try:
-                        t = pformat(classes[op[1]]())
+                        t = pformat(_shown(classes[op[1]](), op[2] if len(op) > 2 else 0))
+                        m = re.search(r'P\d+|REPR', t)
+                        t = m.group(0) if m else t
                     except Exception as e:
                         t = 'EXC:' + type(e).__name__
                     obs.append('R' if t == 'REPR' else t)
@@ -161,7 +180,7 @@ def spec(lat_mro, acc, h):
 def request(mro, acc, h):
     m = ' '.join('(%d %s)' % (k, ' '.join(str(x) for x in l)) for k, l in enumerate(mro))
     a = ' '.join('(%d %s)' % (q, ' '.join(str(x) for x in l)) for q, l in enumerate(acc))
-    ops = ' '.join('(%s)' % ' '.join(str(x) for x in op) for op in h)
+    ops = ' '.join('(%s)' % ' '.join(str(x) for x in (op[:2] if op[0] == 'pr' else op)) for op in h)
     return '(dispatch (%s) (%s) (%s))' % (m, a, ops)
 
 
@@ -280,6 +299,9 @@ def main(tier):
         cases.append(('chain', [[1], [2]], [('rn', 0, 1), ('pr', 0), ('rn', 0, 2), ('pr', 0), ('pr', 1), ('pr', 0)]))
         cases.append(('diamond', [[3], [0, 4]], [('rn', 2, 1), ('rc', 1, 2), ('rp', 1, 5), ('pr', 3), ('pr', 4),
                                                  ('ir', 3, 1, 1, 0), ('pr', 0)]))
+        for how in range(1, 6):
+            cases.append(('chain', [[1], [2]], [('rn', 0, 1), ('pr', 1, how), ('pr', 1), ('rn', 0, 2), ('pr', 0, how)]))
+            cases.append(('diamond', [[3], [0, 4]], [('rn', 1, 3), ('rp', 0, 5), ('pr', 3, how), ('pr', 1, how)]))
         n = 2500 if tier == 'quick' else 40000
         names = list(LATTICES)
         for _ in range(n):
